@@ -325,7 +325,9 @@ class LoaderB(_NamedLoader):
     TARGET = ThingB
 
 
-HISTORY_OPS = ('ctx-A', 'ctx-B', 'recorded-A', 'recorded-B', 'default', 'global-A', 'global-B', 'global-reset-then-A-state')
+HISTORY_OPS = ('ctx-A', 'ctx-B', 'recorded-A', 'recorded-B', 'default', 'global-A', 'global-B', 'global-reset-then-A-state',
+               'shared-A', 'shared-B', 'shared-default')
+SHARED_CTX: List[Any] = []  # one loader-less load context that the 'shared-*' operations of a history all pass
 
 
 def history_op(op: str) -> Tuple[str, Any]:
@@ -338,6 +340,21 @@ def history_op(op: str) -> Tuple[str, Any]:
         saved = thing.save(persistence.LoadSaveContext(loader=loader))
         ctx = persistence.LoadSaveContext(loader=loader) if op.startswith('ctx') else None
         return kind(thing), kind(persistence.Savable.load(saved, ctx))
+    if op.startswith('shared-'):
+        # the caller re-uses one load context (without a loader) for every load
+        if not SHARED_CTX:
+            SHARED_CTX.append(persistence.LoadSaveContext())
+        ctx = SHARED_CTX[0]
+        if op == 'shared-default':
+            thing, saved = ThingA(), ThingA().save()
+        else:
+            loader = LoaderA() if op.endswith('A') else LoaderB()
+            thing = ThingA() if op.endswith('A') else ThingB()
+            saved = thing.save(persistence.LoadSaveContext(loader=loader))
+        got = kind(persistence.Savable.load(saved, ctx))
+        if ctx.loader is not None:
+            got += ' (and the caller\'s context now carries a loader)'
+        return kind(thing), got
     if op == 'default':
         return 'ThingA', kind(persistence.Savable.load(ThingA().save()))
     previous = loaders.get_object_loader()
@@ -360,6 +377,7 @@ def history_op(op: str) -> Tuple[str, Any]:
 
 def check_history(history: Tuple[str, ...]) -> List[dict]:
     out: List[dict] = []
+    del SHARED_CTX[:]
     loop = VLoop()
     loop.install()
     try:
